@@ -24,7 +24,7 @@ def run(tier, replay=None):
         # the harnesses that do not go through the std sort scale further
         env8 = {"VERIF_L": "8"}
         ck.bounds["max_slice_length_non_sort_functions"] = 8
-        res = run_symgo(mod, hp, "slice", "^Harness_C13_(LengthEmpty|Item|Ends|EndsEmpty|Push|TakeSkip|Map|Filter|Zip|ZipMismatch|Scans|Fold|AppendConcatCollect|Distinct|DistinctStrings)$",
+        res = run_symgo(mod, hp, "slice", "^Harness_C13_(LengthEmpty|Item|Ends|EndsEmpty|Push|TakeSkip|Map|Filter|Zip|ZipMismatch|Scans|Fold|AppendConcatCollect|CollectSharedChunks|Distinct|DistinctStrings)$",
                         steps=2000000, env=env8, maxpaths=400000, timeout=900)
         ck.add_run(res)
         ck.handle_violations(res, rp, env=env8)
